@@ -24,6 +24,9 @@ CHECKS = {
  "C09": dict(level="fault_enumeration", engine="LOG", technique="stateful property testing of DepsLog sessions with every-offset truncation, garbage tails and structured damage, oracle = independent binary-format parser + recorded-deps model",
              text="Generated multi-session histories on a real .ninja_deps; every truncation offset (exhaustive up to 3000 bytes), random tails and structurally malformed records after a valid prefix, each continued by an appending session and a reload; deps loaded == fold of complete well-formed records == most recently recorded deps; file size after recovery == end of last good record.",
              ref="4/C09", note="Trusted base: M-depslog parser in verif/props/C09.py, the probe's op interpreter. Two genuine defects found by this check were repaired (fix: commits 33f8d0f, 9f3b7db)."),
+ "C12": dict(level="exploration", engine="manifest-diff", technique="differential testing of ManifestParser against a reference evaluator written from the manual, on grammar-generated multi-file programs and single-token mutants",
+             text="Every generated program (and up to four single-token mutants of it) is parsed by ninja and by an independent ~450-line evaluator of the documented language; accept/reject, the complete graph dump (outputs, kind of every input, validations, pools, defaults, every evaluated binding) and the file:line of each diagnostic must agree, in both -w phonycycle modes.",
+             ref="4/C12", note="Trusted base: verif/mref.py (reference, the manual is the arbiter on disagreements), the probe's graph dump. Two genuine defects found here were repaired (fix: b86922a, 9d5201e)."),
  "C13": dict(level="exploration", engine="enumerator+libFuzzer", technique="coverage-guided fuzzing (libFuzzer, ASan+UBSan) of every input format with the parsed result put to use, plus exhaustive token-alphabet enumeration",
              text="Six libFuzzer targets (manifest with includes, dyndep, depfile, .ninja_log, .ninja_deps incl. structure-aware records, /showIncludes + MAKEFLAGS + status formats + string helpers) whose iterations also use what was parsed (bindings, dirty scan, dry-run build, GetDeps, recompaction, reload); every sequence of up to N tokens over each text format's token alphabet; regression inputs for repaired findings. Sanitizer reports, aborts and 20 s hangs (replayed 3x) are violations.",
              ref="4/C13", note="Trusted base: ASan/UBSan/libFuzzer; the Fatal() hook (guarded) turns 'reports an error and exits' into a countable outcome. Three genuine defects found here were repaired (fix: 9f3b7db, f3ef2ee, 6887975)."),
@@ -42,6 +45,7 @@ ENGINES = [
       kind_free_text="in-process build simulator: virtual disk with logical clock, scripted command runner owning the schedule, real log files; forked per request by the probe server"),
  dict(name="LOG", path="cxx/probe_misc.h (buildlog/depslog op interpreters) + verif/props/C08.py, C09.py", serves_properties=["C08", "C09"],
       kind_free_text="real BuildLog/DepsLog objects on real files driven by generated op lists inside the forked probe; files are cut from outside at every offset"),
+ dict(name="manifest-diff", path="verif/mref.py, verif/props/C12.py, cxx/probe_misc.h (manifest)", serves_properties=["C12"], kind_free_text="reference evaluator vs ManifestParser graph dump"),
  dict(name="shell", path="verif/props/C16.py, cxx/argdump.c", serves_properties=["C16"], kind_free_text="ninja's substituted command text executed by the real /bin/sh"),
  dict(name="enumerator+libFuzzer", path="cxx/enum_*.cc, cxx/fuzz_*.cc, verif/fuzz.py", serves_properties=["C13", "C14", "C15"],
       kind_free_text="bounded-exhaustive enumerators and libFuzzer targets with the semantic oracle inside the target"),
